@@ -218,6 +218,11 @@ static void build(vf::Plan &plan, const vf::Opts &o)
                    unsigned k = (unsigned)vf::take(i, 7), pre = (unsigned)vf::take(i, 2);
                    return strf("Latin-1 byte %02X in context %u%s", b, k, pre ? " behind a 16-byte prefix" : "");
                });
+    if (!reduced) {
+        RunOpts ro = all;
+        ro.heap_prefix = true;
+        add_position_sweep(plan, T ? 600 : 300, ro);
+    }
     // truncations of well-formed text: every prefix of every encoding of every sequence in B^<=3
     {
         unsigned L = reduced ? 2 : T ? 4 : 3;
